@@ -2,10 +2,10 @@
 import random
 import string
 
-TPL = {"orig:P": "P0 {x:name}|{y}", "orig:C": "C0 {y:line}|{x}", "o1": "O1 {x:name} at {y:line}", "o2": "O2 {x}",
+TPL = {"orig:P": "P0 {x:name}|{y}", "orig:C": "C0 {y:line}|{x}", "orig:N": "N0 {x}|{y:name}", "o1": "O1 {x:name} at {y:line}", "o2": "O2 {x}",
        "kw": "KW {x:name}!", "kwn": "KN {x:>{w}}|{y:line}|{x:<{w}}."}
 TTPL = {"o1": "O1 {name:name} at {location.line:line}", "o2": "O2 {name}", "kw": "KW {name:name}!"}
-TITLE = {"orig:P": "Title P", "orig:C": "Title C", "o1": "Title one", "o2": "Title two"}
+TITLE = {"orig:P": "Title P", "orig:C": "Title C", "orig:N": None, "o1": "Title one", "o2": "Title two"}
 
 
 class World:
@@ -24,6 +24,8 @@ class World:
         self.P = type("P", (Feedback,), {"message_template": TPL["orig:P"], "title": TITLE["orig:P"],
                                           "condition": condition, "category": "instructor"})
         self.C = type("C", (self.P,), {"message_template": TPL["orig:C"], "title": TITLE["orig:C"]})
+        # N's own class body sets title = None, masking the title it would inherit from P
+        self.N = type("N", (self.P,), {"message_template": TPL["orig:N"], "title": None})
         self.T = tf.initialization_problem
         self.t_orig = {"message_template": self.T.__dict__["message_template"], "title": self.T.__dict__["title"]}
         self.report = Report()
@@ -38,7 +40,7 @@ class World:
         self.objs = []
 
     def cls(self, c):
-        return {"P": self.P, "C": self.C, "T": self.T}[c]
+        return {"P": self.P, "C": self.C, "N": self.N, "T": self.T}[c]
 
     def close(self):
         # put the real tool class back whatever happened (the thing under test is report.clear, not this)
@@ -46,7 +48,7 @@ class World:
             setattr(self.T, k, v)
         if "_override_backups" in self.T.__dict__:
             delattr(self.T, "_override_backups")
-        for c in (self.P, self.C, self.T):
+        for c in (self.P, self.C, self.N, self.T):
             self.report.overridden_feedbacks.discard(c)
 
     # ---- concrete values
@@ -67,7 +69,7 @@ class World:
             if v == (self.tpl_value(c, tok) if a == "template" else self.title_value(c, tok)):
                 return tok
         # a value belonging to another class (e.g. restored from the wrong backup table)
-        for oc in "PCT":
+        for oc in "PCNT":
             if v == (self.tpl_value(oc, "orig:" + oc) if a == "template" else self.title_value(oc, "orig:" + oc)):
                 return "orig:" + oc
         return "?" + repr(v)
@@ -177,7 +179,7 @@ class World:
         return {"active": [ids.get(id(o), -1) for o in r.feedback],
                 "ignored": [ids.get(id(o), -1) for o in r.ignored_feedback],
                 "objs": objs,
-                "attr": {c: {a: self.attr_token(c, a) for a in ("template", "title")} for c in "PCT"},
+                "attr": {c: {a: self.attr_token(c, a) for a in ("template", "title")} for c in "PCNT"},
                 "raised": raised, "fmt": "F1" if type(r.format) is self.F1 else "F2"}
 
 
